@@ -201,6 +201,11 @@ func writeJSON(path string, v any) {
 	}
 }
 
+// NoSelfCheck names checks whose runs are not re-executed for the determinism
+// self-check: those that hand the members of an overlap group to real threads
+// under the race detector (C36b), which reports a racing pair once per process.
+var NoSelfCheck = map[string]bool{}
+
 func workerBatch(fn CheckFn, id, tier string, opts map[string]string, findings []Finding, out string) {
 	seed := envU64("VERIF_SEED", 1)
 	w := envU64("VERIF_WORKER", 0)
@@ -275,7 +280,7 @@ func workerBatch(fn CheckFn, id, tier string, opts map[string]string, findings [
 			}
 		}
 		// determinism self-check: re-execute 2% of runs from the recorded tape
-		if run%50 == 7 || res.Violation != nil {
+		if (run%50 == 7 || res.Violation != nil) && !NoSelfCheck[id] {
 			r2 := RunOnce(fn, NewReplayTape(res.Tape), tier, opts)
 			sum.Reexec++
 			if r2.Digest != res.Digest {
